@@ -19,10 +19,11 @@
  *   wbk eqvj <sindex> <nterms> { <v: re im | -> }*   the v factors as the Jacobian loop reads them
  *   wbk mat <name> <re im>*                      a, b, x, j, k, best_*, j1, k1, d in row-major order
  *   wbk det <re im>                              value returned by _vnacommon_mldivide
+ *   wbk qrarray <m> <n> <re im>*, wbk qmat <m> <re im>*   the array and Q after _vnacommon_qr
  */
 #define _vnacal_new_solve_calc_weights		wbk_calc_weights
 #define _vnacal_new_solve_update_all_v_matrices	wbk_update_all_v
-#define _vnacommon_qr				wb_qr
+#define _vnacommon_qr				wbk_qr
 #define _vnacommon_mldivide			wbk_mldivide
 #define DEBUG 2
 #define printf wbk_printf
@@ -42,6 +43,7 @@ int _vnacal_new_solve_update_all_v_matrices(const char *function,
 
 /* taps of selfcal_harness.c */
 double *wb_calc_weights(vnacal_new_solve_state_t *vnssp);
+int wb_qr(complex double *a, complex double *q, complex double *r, int m, int n);
 double complex wb_mldivide(complex double *x, complex double *a, const double complex *b,
 	int m, int n);
 int wb_printf(const char *fmt, ...);
@@ -209,6 +211,29 @@ int wbk_update_all_v(const char *function, vnacal_new_solve_state_t *vnssp,
     if (rv != -1 && wbk_enabled())
 	wbk_dump_vj(vnssp);
     return rv;
+}
+
+/*
+ * wbk_qr: _vnacommon_qr as solve_auto calls it.  After the call the array a holds what
+ * _vnacommon_qrd left in it (reflection vectors on and below the diagonal, R above) and q the
+ * matrix formed from it; both are printed for the comparison with AutoKernelQrQ.qr_formq.
+ *   wbk qrarray <m> <n> <re im>*(m*n)
+ *   wbk qmat <m> <re im>*(m*m)
+ */
+int wbk_qr(complex double *a, complex double *q, complex double *r, int m, int n)
+{
+    int rank = wb_qr(a, q, r, m, n);
+
+    if (wbk_enabled()) {
+	printf("wbk qrarray %d %d", m, n);
+	for (int i = 0; i < m * n; ++i)
+	    printf(" %.17g %.17g", creal(a[i]), cimag(a[i]));
+	printf("\nwbk qmat %d", m);
+	for (int i = 0; i < m * m; ++i)
+	    printf(" %.17g %.17g", creal(q[i]), cimag(q[i]));
+	printf("\n");
+    }
+    return rank;
 }
 
 double complex wbk_mldivide(complex double *x, complex double *a,
